@@ -380,6 +380,7 @@ PROPS = {
                                   "rb_severityPart", "triples_by_severity", "C11_vulnerability",
                                   "readBack_optimizationReport", "sigOK_of_b", "sigOK_opt", "sigOK_vuln", "sigOK_qa",
                                   "overviews_have_no_marker", "C11_optimization", "C11_qa", "section_iff"],
+            "Solstat.Props.C11Text": ["parseEntryChars_render", "render_entry_toList", "parseLine_entry", "parseLine_text", "not_entry_of_head"],
             "Solstat.Props.C13": ["all_variants_known"],
         },
         "obs": [("render", [])],
@@ -387,7 +388,7 @@ PROPS = {
         "foreign_prefix": ("stale",),   # a report file that keeps text of the previous run is C18's violation
         "rule": "a case is one findings map (random subset of patterns, 0-6 files per pattern with names containing spaces, colons, dashes, unicode, the list marker; line sets incl. 0 and 2^31-1) rendered by the real generate_*_report; distinct by SHA-1; non-trivial when at least one entry is listed",
         "assumptions": [
-            "the read-back theorem is about structured lines (text | entry file line); the textual form `- file:line` is parsed by the oracle (split at the last colon) on every real report — that parse is tested, not proved",
+            "the read-back theorem is about structured lines (text | entry file line); the step from the text is Props/C11Text: the character-level parser used by the oracle (split at the LAST colon) recovers (file, line) from the rendered `- file:line` for every file name (colons, dashes, spaces, list markers included) and every line number (parseLine_entry), and returns a line that does not start with `-` unchanged (parseLine_text, not_entry_of_head); that the fixed section texts contain no line that parses as an entry is not decided in the kernel (String.toList over ~900 literals times out) — such a line could only matter inside a `### Lines` list, where sectionBlock puts nothing but entries and the closing empty line",
             "section texts, overview formats and the variant->section mapping are regenerated by the translator; side conditions (every section has an exclusive signature line, no section or overview contains the list marker) are decided in the kernel on the regenerated texts",
             "the vulnerability part's read-back is covered by readBack_blocks per severity part plus correspondence and oracle; a single theorem for the concatenated vulnerability report is not stated",
             "file names without line breaks",
